@@ -34,6 +34,8 @@ class Client:
         self.thread = None
         self.in_op = False
         self.lib_depth = 0
+        self.op_faulted = False         # a fault already fired in the current op
+        self.op_dirty_seen = False      # the first dirty detection of the current op already happened
 
 
 def _is_lib_file(fn):
@@ -60,6 +62,8 @@ class Baton:
         self._code_cache = {}
         self.error = None
         self.barrier_hits = 0
+        self.dirty_probe = None         # callable: are shared containers away from their quiescent sizes?
+        self.dirty_hits = 0
         self.capped = False
 
     # ------------------------------------------------------------------ tracing
@@ -76,6 +80,9 @@ class Baton:
                 ng = sched.next_g
                 if (ng >= 0 and g >= ng) or client.step_in_op == client.next_point:
                     sched._consult(client, frame, 'step')
+                elif not g & 63 and sched.dirty_probe is not None and sched.dirty_probe():
+                    sched.dirty_hits += 1
+                    sched.barrier_hit(client, frame)
                 if g > sched.step_cap and not sched.capped:
                     sched.capped = True
                     sched.next_g = -1
@@ -100,6 +107,7 @@ class Baton:
     def _fire_fault(self, client, frame):
         kind = client.fault_kind
         client.fault_at = -1
+        client.op_faulted = True
         self.faults_fired.append([client.cid, client.op_idx, client.step_in_op, kind, self._site(frame)])
         if kind == 'abort':
             raise Abort('injected abort')
@@ -122,12 +130,31 @@ class Baton:
             self.policy.on_resume(self, client)
 
     def barrier_hit(self, client, frame):
-        """A write to an object reachable from a cached (shared) model — called by the write barrier after the write."""
+        """Shared state is being modified right now: an attribute write to an object reachable from a cached model
+        (write barrier, called after the write) or the watched shared containers are away from their quiescent sizes
+        (dirty probe). The most damaging instants for a fault or a pre-emption, so the policy may (a) park the thread
+        here until the others have finished (`dirty-stall`), (b) kill the request here (`dirty-abort`), (c) switch."""
         self.barrier_hits += 1
-        if client.in_op and not self.capped:
-            target = self.policy.at_point(self, client, 'barrier')
-            if target is not None and target is not client:
-                self._switch(client, target, frame, 'barrier')
+        if not client.in_op or self.capped:
+            return
+        first = not client.op_dirty_seen
+        client.op_dirty_seen = True
+        if not client.op_faulted:
+            k = self.policy.dirty_fault(self, client, first)
+            if k is not None:
+                client.op_faulted = True
+                self.faults_fired.append([client.cid, client.op_idx, client.step_in_op, 'dirty-' + k, self._site(frame)])
+                if k == 'abort':
+                    raise Abort('injected abort while shared state is being modified')
+                client.stalled = True
+                target = self.policy.pick_other(self, client)
+                if target is not None:
+                    self._switch(client, target, frame, 'stall')
+                client.stalled = False
+                return
+        target = self.policy.at_point(self, client, 'barrier')
+        if target is not None and target is not client:
+            self._switch(client, target, frame, 'barrier')
 
     def _switch(self, me, target, frame, why):
         site = self._site(frame) if frame is not None else '-'
@@ -160,6 +187,8 @@ class Baton:
             for i, op in enumerate(client.ops):
                 client.op_idx = i
                 client.step_in_op = 0
+                client.op_faulted = False
+                client.op_dirty_seen = False
                 self.policy.on_op_start(self, client, op)
                 if op.get('fresh_thread'):
                     self._run_in_fresh_thread(client, op, exec_op, tr)
@@ -254,6 +283,20 @@ class BasePolicy:
     def at_point(self, sched, client, why):
         return None
 
+    dirty = None        # {'stall': p_first, 'abort': p_first} or None (fault-free run)
+
+    def dirty_fault(self, sched, client, first):
+        d = self.dirty
+        dec = getattr(self, 'dec', None)
+        if not d or dec is None or len(sched.runnable(exclude=client)) == 0 and not d.get('abort'):
+            return None
+        scale = 1.0 if first else 0.3
+        if d.get('stall') and len(sched.runnable(exclude=client)) and dec.chance('dirty-stall', d['stall'] * scale):
+            return 'stall'
+        if d.get('abort') and dec.chance('dirty-abort', d['abort'] * scale):
+            return 'abort'
+        return None
+
     def pick_other(self, sched, client):
         r = [c for c in sched.runnable(exclude=client) if not c.stalled]
         return r[0] if r else None
@@ -305,6 +348,46 @@ class RandomWalkPolicy(BasePolicy):
             return None
         ns = [c for c in r if not c.stalled] or r
         return ns[self.dec.choice('pick', len(ns))]
+
+
+class RoundRobinPolicy(BasePolicy):
+    """Fine-grained time slicing: every client runs a quantum of q steps (q jittered +-50 %), then the next one in a
+    rotating order. Keeps all clients inside the same phase of similar ops at the same time — the schedule family that
+    exposes WIDE-window races on shared objects (state parked on a shared parser for the length of a sub-call), which
+    PCT (few, deep switches) and a sparse random walk rarely hit."""
+
+    def __init__(self, dec, quantum):
+        self.dec = dec
+        self.q = max(2, int(quantum))
+
+    def first(self, sched):
+        return sched.clients[self.dec.choice('first', len(sched.clients))]
+
+    def on_resume(self, sched, client):
+        sched.next_g = sched.global_step + max(1, self.q // 2 + self.dec.choice('jitter', self.q))
+
+    def _next(self, sched, client):
+        r = [c for c in sched.runnable(exclude=client) if not c.stalled]
+        if not r:
+            return None
+        later = [c for c in r if c.cid > client.cid]
+        return (later or r)[0]
+
+    def at_point(self, sched, client, why):
+        if why == 'barrier' and not self.dec.chance('barrier', 0.5):
+            return None
+        return self._next(sched, client)
+
+    def pick_other(self, sched, client):
+        return self._next(sched, client)
+
+    def on_finish(self, sched, client):
+        r = sched.runnable()
+        if not r:
+            return None
+        ns = [c for c in r if not c.stalled] or r
+        later = [c for c in ns if c.cid > client.cid]
+        return (later or ns)[0]
 
 
 class PCTPolicy(BasePolicy):
@@ -360,8 +443,9 @@ class PCTPolicy(BasePolicy):
 class ReplayPolicy(BasePolicy):
     """Feeds a recorded switch list back: entries [from cid, op_idx, step_in_op, to cid, site, why]."""
 
-    def __init__(self, first_cid, switches, finish_order=None):
+    def __init__(self, first_cid, switches, finish_order=None, dirty_faults=None):
         self.first_cid = first_cid
+        self.dirty_faults = {(f[0], f[1], f[2]): f[3][6:] for f in (dirty_faults or []) if str(f[3]).startswith('dirty-')}
         self.by_client = {}
         for s in switches:
             self.by_client.setdefault(s[0], []).append(s)
@@ -404,6 +488,9 @@ class ReplayPolicy(BasePolicy):
                 return c
         self.divergent += 1
         return None
+
+    def dirty_fault(self, sched, client, first):
+        return self.dirty_faults.get((client.cid, client.op_idx, client.step_in_op))
 
     def pick_other(self, sched, client):
         return self.at_point(sched, client, 'stall') or BasePolicy.pick_other(self, sched, client)
